@@ -60,28 +60,39 @@ extern "C" __attribute__((noinline)) int u_dyn(const DK *bk, const DV *bv, size_
             if (ops[3 * i] == 0) d.insert_or_assign(ops[3 * i + 1], ops[3 * i + 2]);
             else d.erase(ops[3 * i + 1]);
         }
+#if DMODE == 2
         out[8] = pgm_verif_access::invariants(d);
+#endif
         auto e = d.end();
+#if DMODE == 0
         auto f = d.find(q[0]);
         out[0] = f != e; out[1] = f != e ? f->second : 0;
         out[2] = d.count(q[0]);
         auto lb = d.lower_bound(q[1]);
         out[3] = lb != e; out[4] = lb != e ? lb->first : 0; out[5] = lb != e ? lb->second : 0;
-        out[6] = d.size(); out[7] = d.empty();
+#endif
+#if DMODE == 1
         size_t c = 0;
         for (auto it = d.begin(); it != e; ++it) {
             if (c < MAXOUT) { out[10 + 2 * c] = it->first; out[11 + 2 * c] = it->second; }
             if (++c > 4 * MAXOUT) return 9;
         }
         out[9] = c;
+#endif
+#if DMODE == 3
+        out[6] = d.size(); out[7] = d.empty();
         auto r = d.range(q[2], q[3]);
         size_t base = 10 + 2 * MAXOUT;
         out[base] = r.size();
         for (size_t i = 0; i < r.size() && i < MAXOUT; ++i) { out[base + 1 + 2 * i] = r[i].first; out[base + 2 + 2 * i] = r[i].second; }
+#endif
+#if DMODE == 4
+        auto lb2 = d.lower_bound(q[1]);
         size_t c2 = 0;
-        for (auto it = lb; it != e; ++it)
+        for (auto it = lb2; it != e; ++it)
             if (++c2 > 4 * MAXOUT) return 9;
-        out[base + 1 + 2 * MAXOUT] = c2;
+        out[10 + 2 * MAXOUT + 1 + 2 * MAXOUT] = c2;
+#endif
         return 0;
     } catch (const std::invalid_argument &) { return 1; }
       catch (const std::logic_error &) { return 2; }
